@@ -71,6 +71,7 @@ struct Conn
    uint64_t msgsReceived = 0;
    std::string departedHow;        // "", "close", "cut", "reset"
    bool departureChecked = false;
+   bool everEmptyClause = false;   // ... or subscribed to a path with an empty clause (finding F9)
    bool everAliased = false;       // this session has at some point held two parameter names normalising to one subscription path (finding F14)
 };
 
@@ -260,6 +261,7 @@ public:
       MessageRef asReceived; if (!cmdCopies.empty()) {asReceived = cmdCopies.back(); cmdCopies.pop_back();}
       if ((msg()->what != PR_COMMAND_BATCH)&&(asReceived())&&(!c->hostile)) ApplyToServerModel(c, *asReceived(), 0);   // a BATCH's sub-commands were applied one by one as they were processed
       if (HasAliases(c->serverSubs)) {c->everAliased = true; st.inc("p.aliased_subscriptions");}
+      if (HasEmptyClause(c->serverSubs)) {c->everEmptyClause = true; st.inc("p.empty_clause_subscription");}
       if (orc.marks) CheckMarks("after command");
       if (orc.index) CheckIndexWellFormed();
       if (orc.isolation) CheckIsolation(c);
@@ -456,10 +458,12 @@ public:
             d += "} but the sessions' current subscriptions imply {"; for (auto & e : exp) d += U(e.first) + ":" + U(e.second) + " "; d += "}; last command: " + lastCmdDesc;
             for (auto & e : got) {bool live = false; for (auto & cp : conns) if ((cp)&&(cp->up)&&(cp->sid == e.first)) live = true; if (!live) Fail("marks_of_departed_session", d);}
             // narrow trigger descriptor for finding F14: a session whose marks differ holds two parameter names that normalise to one path
-            for (auto & cp : conns) if ((cp)&&(cp->up)&&(exp[cp->sid] != got[cp->sid])&&(HasAliases(cp->serverSubs))) Fail("marks_mismatch_aliased_subscriptions", d + "; session " + U(cp->sid) + " holds two spellings of one subscription path");
+            for (auto & cp : conns) if ((cp)&&(cp->up)&&(exp[cp->sid] != got[cp->sid])&&(cp->everEmptyClause)) Fail("marks_mismatch_empty_clause_subscription", d + "; session " + U(cp->sid) + " has subscribed to a path with an empty clause");
+            for (auto & cp : conns) if ((cp)&&(cp->up)&&(exp[cp->sid] != got[cp->sid])&&((cp->everAliased)||(HasAliases(cp->serverSubs)))) Fail("marks_mismatch_aliased_subscriptions", d + "; session " + U(cp->sid) + " holds (or held) two spellings of one subscription path");
             Fail("marks_mismatch", d);
          } });
    }
+   static bool HasEmptyClause(const std::map<std::string, Sub> & subs) {for (auto & sp : subs) {const std::string n = match::Normalise(sp.first); if ((n.empty())||(n[n.size()-1] == '/')||(n.find("//") != std::string::npos)) return true;} return false;}
    static bool HasAliases(const std::map<std::string, Sub> & subs) {std::set<std::string> norm; for (auto & sp : subs) if (!norm.insert(match::Normalise(sp.first)).second) return true; return false;}
    void CheckIndexWellFormed()
    {
@@ -667,7 +671,7 @@ public:
                std::string cls;
                for (auto & t : exp) {if (!got.count(t.first)) {if (QuietOnly(c, t.first)) continue; d += " MISSING " + t.first; if (cls.empty()) cls = "mirror_missing";} else if (got[t.first] != t.second) {d += " STALE " + t.first; if (cls.empty()) cls = "mirror_stale";}}
                for (auto & t : got) if (!exp.count(t.first)) {d += " EXTRA " + t.first; if (cls.empty()) cls = "mirror_extra";}
-               if (!cls.empty()) {d += "; subscriptions:"; for (auto & sp : c->clientSubs) d += " [" + sp.first + " " + sp.second.filt.Str() + "]"; if (c->everAliased) cls += "_aliased_subscriptions"; Fail(cls, d);}
+               if (!cls.empty()) {d += "; subscriptions:"; for (auto & sp : c->clientSubs) d += " [" + sp.first + " " + sp.second.filt.Str() + "]"; if (c->everEmptyClause) cls += "_empty_clause_subscription"; else if (c->everAliased) cls += "_aliased_subscriptions"; Fail(cls, d);}
             }
             st.inc("mirror_checks"); st.inc("mirror_entries_checked", exp.size());
             if (exp.size() > 0) st.inc("p.nonempty_mirror_checked");
